@@ -8,7 +8,7 @@ TECHNIQUE = "runtime monitoring: causal-context oracle (unique taint tokens per 
 RULE = ("publish-heavy generated definitions (unique and deliberately conflicting variable names, values that record "
         "their own history by concatenation, diamonds, nested joins, splits, loops, both expression languages and all "
         "four ctx reference forms) x hashed outcomes x seeded schedules, plus every arrival order of small ones; every "
-        "offered context, rendered action input and rendered output is compared with the oracle; additionally the EXHAUSTIVE family of acyclic shapes over 4 tasks (every edge set with a join x every grouping of a task's outgoing edges into one transition or one per target x every per-transition choice of publishing the shared variable: 1024 definitions, every completion order of each) and a hashed sample of the 5-task family; non-trivial = a join "
+        "offered context, rendered action input and rendered output is compared with the oracle; additionally the EXHAUSTIVE family of acyclic shapes over 4 tasks (every edge set with a join x every grouping of a task's outgoing edges into one transition or one per target x every per-transition choice of publishing the shared variable, once with values that record their history and once with two constants that recur: 2 x 1024 definitions, every completion order of each) and a hashed sample of the 5-task family; non-trivial = a join "
         "merged branches that disagree on at least one variable, or a context with >= 2 published variables was "
         "checked; distinct = (definition, history) digest")
 ASSUMPTIONS = ASSUME_SIM
@@ -36,6 +36,8 @@ def jobs(tier, seed):
     # exhaustive: every acyclic shape over 4 tasks x transition grouping x publish pattern (1024 definitions), every
     # completion order of each; plus a sample of the 5-task family
     js += batches("orders", 1024, 64, gen="shape", gseed=0, p_fail=0.0, max_orders=120, max_completions=6, name="shapes-4-exhaustive")
+    js += batches("orders", 1024, 64, gen="shape", shape_literal=True, gseed=0, p_fail=0.0, max_orders=120, max_completions=6,
+                  name="shapes-4-literal-publishes")
     js += batches("orders", scale(tier, 160, 8000), scale(tier, 16, 100), gen="shape", shape_n=5, shape_sample=True, gseed=seed + 7,
                   p_fail=0.0, max_orders=scale(tier, 60, 240), max_completions=6, name="shapes-5-sampled")
     return js
